@@ -82,18 +82,19 @@ theorem loadExc_record (s : SendCfg) (r : RecvCfg) (env : Env) (e : ExcRec) (cls
     loadExc r env (recordPayload s e tb)
       = instantiate env (importEvents r env (.str e.cls.modname)) cls nn (.tuple (walkArgs e e.dir))
           (.tuple (walkAttrs e.dir ++ [versionPair s])) tb := by
-  unfold recordPayload loadExc
+  rw [loadExc_eq_core]
+  unfold recordPayload loadCore
   simp only [isStopMarker_tuple, Bool.false_eq_true, ↓reduceIte, unpack4, iter, unpack2, loadRecord, hashable_all,
     Bool.not_true, Bool.and_false, hres]
 
 theorem instantiate_ok (env : Env) (evs : List Event) (cls : ClsRef) (a b t : Val) (o : ExcObj)
     (h : build env cls a b t = .ok o) :
     instantiate env evs cls false a b t = ⟨evs ++ [.new cls], .ok (.exc o)⟩ := by
-  simp [instantiate, h]
+  simp [instantiate, h, instantiationEvent_eq]
 
 theorem instantiate_needsArgs (env : Env) (evs : List Event) (cls : ClsRef) (a b t : Val) :
     instantiate env evs cls true a b t = ⟨evs ++ [.new cls], .error .typeError⟩ := by
-  simp [instantiate]
+  simp [instantiate, instantiationEvent_eq]
 
 /-! ### which class -/
 
@@ -164,6 +165,7 @@ theorem importEvents_ok (r : RecvCfg) (env : Env) (m : Val) : ∀ ev ∈ importE
 theorem instantiate_events (env : Env) (evs : List Event) (cls : ClsRef) (nn : Bool) (a b t : Val) :
     (instantiate env evs cls nn a b t).events = evs ++ [.new cls] := by
   unfold instantiate
+  rw [instantiationEvent_eq]
   split
   · rfl
   · split <;> rfl
@@ -184,7 +186,8 @@ theorem loadRecord_events (r : RecvCfg) (env : Env) (m c a b t : Val) :
 
 theorem loadExc_events (r : RecvCfg) (env : Env) (p : Val) : ∀ ev ∈ (loadExc r env p).events, EvOK r env ev := by
   intro ev hev
-  unfold loadExc at hev
+  rw [loadExc_eq_core] at hev
+  unfold loadCore at hev
   split at hev
   · cases hev
   · split at hev
@@ -257,7 +260,8 @@ theorem instantiate_out (env : Env) (evs : List Event) (cls : ClsRef) (nn : Bool
 
 theorem loadExc_out (r : RecvCfg) (env : Env) (p : Val) (o : ExcObj)
     (h : (loadExc r env p).out = .ok (.exc o)) : ClsAllowed r env o.cls := by
-  unfold loadExc at h
+  rw [loadExc_eq_core] at h
+  unfold loadCore at h
   split at h
   · cases h
   · split at h
@@ -361,9 +365,36 @@ theorem loadExc_fallback (r : RecvCfg) (env : Env) (e : ExcRec) (cls : ClsRef)
     unfold versionCheck
     have h : (Gen.Vinegar.loadVersionDefault == Gen.Vinegar.loadVersionCompare) = true := by decide
     simp [h]
-  unfold fallbackPayload loadExc
+  rw [loadExc_eq_core]
+  unfold fallbackPayload loadCore
   simp only [isStopMarker_tuple, Bool.false_eq_true, ↓reduceIte, unpack4, iter, unpack2, loadRecord, hashable_all,
     Bool.not_true, Bool.and_false, hres]
-  simp [instantiate, build, iter, assignAll, remoteVersion, ExcObj.get, lookupAttr, hv, fallbackObj]
+  simp [instantiate, instantiationEvent_eq, build, iter, assignAll, remoteVersion, ExcObj.get, lookupAttr, hv, fallbackObj]
+
+/-- a class name `builtins` does not hold (here) as an exception class — a built-in class of the SENDER's interpreter that
+this one lacks —: the generic stand-in `builtins.<name>`, under every switch setting -/
+theorem resolveClass_builtin_unknown (r : RecvCfg) (env : Env) (n : Str)
+    (hb : (env.builtinAttr n).isExc = false) (hm : (env.modAttr (.str Gen.Vinegar.exceptionsModule) n).isExc = false)
+    (hname : typeNameCheck (Gen.Vinegar.exceptionsModule ++ [46] ++ n) = .ok ()) :
+    resolveClass r env (.str Gen.Vinegar.exceptionsModule) (.str n)
+      = .ok (.generic (Gen.Vinegar.exceptionsModule ++ [46] ++ n), false) := by
+  have hgen : genericClass env (.str Gen.Vinegar.exceptionsModule) (.str n)
+      = .ok (.generic (Gen.Vinegar.exceptionsModule ++ [46] ++ n), false) := by
+    simp only [genericClass, fullName, hname]
+  have hbn : isBuiltinsName (.str Gen.Vinegar.exceptionsModule) = true := by simp [isBuiltinsName]
+  unfold resolveClass lookupClass
+  cases hi : r.instCustom
+  · cases hk : env.builtinAttr n with
+    | excClass nn => simp [hk, ObjKind.isExc] at hb
+    | missing => simp [hbn, getattrKind, hk, hgen]
+    | notType => simp [hbn, getattrKind, hk, hgen]
+    | typeNotExc => simp [hbn, getattrKind, hk, hgen]
+  · cases him : inModules r env (.str Gen.Vinegar.exceptionsModule)
+    · simp [hgen]
+    · cases hk : env.modAttr (.str Gen.Vinegar.exceptionsModule) n with
+      | excClass nn => simp [hk, ObjKind.isExc] at hm
+      | missing => simp [getattrKind, hk, hgen]
+      | notType => simp [getattrKind, hk, hgen]
+      | typeNotExc => simp [getattrKind, hk, hgen]
 
 end Rpyc.Vinegar
